@@ -26,15 +26,15 @@ def check_invariant(chk, case, res):
             return
 
 
-def three_ways(chk, stream, texts):
+def three_ways(chk, stream, texts, spec=True):
     ca = [("rall", [t]) for t in texts]
     ia, ma = chk.run_both(ca)
-    chk.compare(stream + "/all", ca, ia, ma)
+    chk.compare(stream + "/all", ca, ia, ma, spec=spec)
     for c, r in zip(ca, ia):
         check_invariant(chk, c, r)
     cn = [("rnext", [t]) for t in texts]
     i_n, m_n = chk.run_both(cn)
-    chk.compare(stream + "/next-loop", cn, i_n, m_n, nontrivial=lambda c, r: r.startswith("[ "))
+    chk.compare(stream + "/next-loop", cn, i_n, m_n, nontrivial=lambda c, r: r.startswith("[ "), spec=spec)
     for c, r in zip(cn, i_n):
         check_invariant(chk, c, r)
     for op in ("rslice", "rdecode"):
@@ -75,13 +75,13 @@ def run(chk):
             mut.append(gen.mutate(rng, t, EDIT))
     mut += [b" x\nA: b\n", b"A: 1\nA: 2\n", b"A: 1\n \nB: 2\n", b"A\n", b":\n", b"A:\n .\n a\n", b"\n\n\n", b"", b"#\n", b"A: b", b"A: b\r", b"A: b\n\r", b" \nA: b\n",
             b"A: b\n\n \nB: c\n", b"A : b\n", b"A:b:c\n", b"\tA: b\n", b"A: b\n#c\n c\n"]
-    three_ways(chk, "mutations", mut)
+    three_ways(chk, "mutations", mut, spec=False)
     # 3. raw bytes
     raw = [gen.rand_bytes(rng, 30, EDIT) for _ in range(chk.n(2500, 50000))]
     raw += [gen.rand_bytes(rng, 24) for _ in range(chk.n(500, 10000))]
     raw += gen.words([b"A", b":", b" ", b"\n", b"\r", b"#", b"."], 4)
     raw += [b"A:\xc2\xa0b\xc2\xa0\n \xe2\x80\x83c\xe2\x80\x83\n", b"\xc2\xa0A\xc2\xa0: b\n", b"A: b\n \xc2\xa0\n", b" \xc2\xa0\nA: b\n", b"A: b\n \xc2\xa0.\n"]
-    three_ways(chk, "raw-bytes", raw)
+    three_ways(chk, "raw-bytes", raw, spec=False)
     chk.assumptions += ["the executed reader model trims Unicode whitespace exactly as Go does (R2u); the C07 theorems are stated for the ASCII reader and transfer to it on text without non-ASCII Unicode space encodings (C07_exact_reader_agrees)",
                         "I/O errors of the underlying reader are not modelled (in-memory readers)"]
 
